@@ -386,14 +386,27 @@ class History(Driver):
         finish = rng.choice(['close', 'close', 'abort'])
         try:
             while True:
-                rc, pk = L.it_next(it, 'new')
+                if rng.random() < 0.3:
+                    # into a packet of the caller's that holds none, some or all of the loop's items
+                    sub = rng.sample(norms, rng.randint(0, len(norms)))
+                    rc0, cpk = L.packet_create(sub)
+                    rc, pk = L.it_next(it, 'reuse', cpk)
+                    if rc != CIF_OK:
+                        L.packet_free(cpk)
+                    self.ctx.count('packets_delivered_into_a_caller_packet')
+                else:
+                    rc, pk = L.it_next(it, 'new')
                 if rc == CIF_FINISHED:
                     break
                 self.expect('cif_pktitr_next_packet', rc, {CIF_OK})
                 rc2, pn = L.packet_names(pk)
                 got = {}
                 for n in pn:
-                    got[n] = self.read(L.packet_get(pk, n)[1])
+                    rcg, e = L.packet_get(pk, n)
+                    if rcg != CIF_OK:
+                        L.packet_free(pk)
+                        raise Mismatch('state:next_packet:item-not-retrievable', 'the delivered packet lists item %r but cif_packet_get_item answers %d' % (n, rcg))
+                    got[n] = self.read(e)
                 L.packet_free(pk)
                 if sorted(got) != sorted(norms):
                     raise Mismatch('state:next_packet:names', 'packet items %r, loop items %r' % (sorted(got), sorted(norms)))
